@@ -250,6 +250,19 @@ tree_node_t *fstree_add_generic(fstree_t *fs, const sqfs_dir_entry_t *ent,
 		return NULL;
 	}
 
+	/* squashfs stores 32 bit IDs and a 32 bit encoded device number */
+	if (ent->uid > 0x0FFFFFFFFUL || ent->gid > 0x0FFFFFFFFUL) {
+		errno = ERANGE;
+		return NULL;
+	}
+
+	if ((S_ISBLK(ent->mode) || S_ISCHR(ent->mode)) &&
+	    !(ent->flags & SQFS_DIR_ENTRY_FLAG_HARD_LINK) &&
+	    ent->rdev > 0x0FFFFFFFFUL) {
+		errno = ERANGE;
+		return NULL;
+	}
+
 	if (ent->name[0] == '\0') {
 		child = fs->root;
 		assert(child != NULL);
